@@ -510,15 +510,21 @@ Corollary history_independent_nosetters st : well_bracketed st = true ->
     result st fuel (run st fuel hist G0) c = result st fuel (run st fuel [] G0) c.
 Proof. intros Hwb fuel hist c Hs. rewrite (history_independent_gen st Hwb fuel hist c), Hs. reflexivity. Qed.
 
+Lemma observable_add_parser p x : observable (add_parser p x) = observable x.
+Proof. reflexivity. Qed.
+
+Lemma observable_of_core a b : core a = core b -> observable a = observable b.
+Proof. unfold core, observable. intros H. inversion H. reflexivity. Qed.
+
 Lemma observable_step st fuel c g : well_bracketed st = true -> fuel <> O ->
   observable (fst (step st fuel c g)) = set_by (observable g) c.
 Proof.
   intros Hwb Hf. destruct (is_setter c) eqn:Es.
   - destruct fuel; [congruence|]. destruct c as [b|i p|p| |pf|l|praise l|who b|fresh fp b1 bm b2|b];
       simpl in Es; try discriminate; try (destruct g; reflexivity).
-    simpl. unfold observable.
-    pose proof (core_tok_default st (match l with Some x => set_logcfg x g | None => g end)) as Hc.
-    unfold core in Hc. destruct l; destruct g; simpl in *; inversion Hc; reflexivity.
+    cbn [step fst]. rewrite observable_add_parser.
+    rewrite (observable_of_core _ _ (core_tok_default st (match l with Some x => set_logcfg x g | None => g end))).
+    destruct l; destruct g; reflexivity.
   - destruct (step_frame st fuel c g Hwb Es) as [Fc _].
     unfold observable. unfold core in Fc. inversion Fc.
     destruct c; simpl in Es; try discriminate; simpl; congruence.
